@@ -43,8 +43,12 @@ impl SerdeParser {
                 if let Ok(tokens) = syn::parse2::<syn::MetaList>(attr.meta.to_token_stream()) {
                     let tokens_str = tokens.tokens.to_string();
 
-                    // Check for skip flag
-                    if tokens_str.contains("skip") && !tokens_str.contains("skip_serializing") {
+                    // Only the `skip` item itself removes a field; `skip_serializing_if`,
+                    // `skip_deserializing` or the text "skip" inside a value do not
+                    if parse_meta_items(&tokens_str)
+                        .iter()
+                        .any(|(name, _)| name == "skip")
+                    {
                         result.skip = true;
                     }
 
@@ -62,55 +66,107 @@ impl SerdeParser {
     /// Parse rename_all value like "camelCase", "snake_case", "PascalCase", etc. to
     /// find a matching `serde_rename_rule::RenameRule`.
     fn parse_rename_all(&self, tokens: &str) -> Option<RenameRule> {
-        if let Some(start) = tokens.find("rename_all") {
-            if let Some(eq_pos) = tokens[start..].find('=') {
-                let after_eq = &tokens[start + eq_pos + 1..].trim_start();
-
-                // Extract value from quotes
-                if let Some(quote_start) = after_eq.find('"') {
-                    if let Some(quote_end) = after_eq[quote_start + 1..].find('"') {
-                        let value = &after_eq[quote_start + 1..quote_start + 1 + quote_end];
-
-                        return RenameRule::from_rename_all_str(value).ok();
-                    }
-                }
-            }
-        }
-        None
+        parse_meta_items(tokens)
+            .into_iter()
+            .find(|(name, _)| name == "rename_all")
+            .and_then(|(_, value)| value)
+            .and_then(|value| RenameRule::from_rename_all_str(&value).ok())
     }
 
     /// Parse rename value from field attribute
     fn parse_rename(&self, tokens: &str) -> Option<String> {
-        // Look for "rename" but not "rename_all"
-        let mut search_start = 0;
-        while let Some(pos) = tokens[search_start..].find("rename") {
-            let abs_pos = search_start + pos;
-
-            // Check if this is followed by "_all"
-            let after_rename = &tokens[abs_pos + 6..];
-            if after_rename.trim_start().starts_with("_all") {
-                // This is rename_all, skip it
-                search_start = abs_pos + 10; // Move past "rename_all"
-                continue;
-            }
-
-            // This is a plain "rename", extract the value
-            if let Some(eq_pos) = after_rename.find('=') {
-                let after_eq = &after_rename[eq_pos + 1..].trim_start();
-
-                // Extract value from quotes
-                if let Some(quote_start) = after_eq.find('"') {
-                    if let Some(quote_end) = after_eq[quote_start + 1..].find('"') {
-                        let value = &after_eq[quote_start + 1..quote_start + 1 + quote_end];
-                        return Some(value.to_string());
-                    }
-                }
-            }
-
-            break;
-        }
-        None
+        // Look for the "rename" item itself, not "rename_all" or text inside another value
+        parse_meta_items(tokens)
+            .into_iter()
+            .find(|(name, _)| name == "rename")
+            .and_then(|(_, value)| value)
     }
+}
+
+/// Split the token string of a `#[serde(...)]` attribute into its top-level items and return
+/// each item's name together with the unescaped string value of `name = "value"` items.
+/// Commas inside string literals or nested parentheses do not separate items.
+fn parse_meta_items(tokens: &str) -> Vec<(String, Option<String>)> {
+    let mut items = Vec::new();
+    let mut current = String::new();
+    let mut depth = 0;
+    let mut in_string = false;
+    let mut escaped = false;
+
+    for ch in tokens.chars() {
+        if in_string {
+            current.push(ch);
+            if escaped {
+                escaped = false;
+            } else if ch == '\\' {
+                escaped = true;
+            } else if ch == '"' {
+                in_string = false;
+            }
+            continue;
+        }
+        match ch {
+            '"' => {
+                in_string = true;
+                current.push(ch);
+            }
+            '(' | '[' | '{' => {
+                depth += 1;
+                current.push(ch);
+            }
+            ')' | ']' | '}' => {
+                depth -= 1;
+                current.push(ch);
+            }
+            ',' if depth == 0 => {
+                items.push(std::mem::take(&mut current));
+            }
+            _ => current.push(ch),
+        }
+    }
+    items.push(current);
+
+    items
+        .iter()
+        .filter_map(|item| {
+            let item = item.trim();
+            let name: String = item
+                .chars()
+                .take_while(|c| c.is_alphanumeric() || *c == '_')
+                .collect();
+            if name.is_empty() {
+                return None;
+            }
+            let rest = item[name.len()..].trim_start();
+            let value = rest
+                .strip_prefix('=')
+                .map(|v| v.trim())
+                .and_then(|v| v.strip_prefix('"'))
+                .and_then(|v| v.strip_suffix('"'))
+                .map(unescape_string_literal);
+            Some((name, value))
+        })
+        .collect()
+}
+
+/// Undo the escapes of a Rust string literal body (`\"`, `\\`, `\n`, `\r`, `\t`)
+fn unescape_string_literal(body: &str) -> String {
+    let mut value = String::new();
+    let mut chars = body.chars();
+    while let Some(ch) = chars.next() {
+        if ch != '\\' {
+            value.push(ch);
+            continue;
+        }
+        match chars.next() {
+            Some('n') => value.push('\n'),
+            Some('r') => value.push('\r'),
+            Some('t') => value.push('\t'),
+            Some(other) => value.push(other),
+            None => value.push('\\'),
+        }
+    }
+    value
 }
 
 impl Default for SerdeParser {
